@@ -579,3 +579,59 @@ class MiniPCNSample(Contract):
 class EmceeSample(MiniPCNSample):
     qual = "samplers.mcmc:Emcee.sample"
     cls = "Emcee"
+
+
+class BuildAspireFromFileModel(Contract):
+    """caller-side model of the reader: an Aspire instance rebuilt from the stored configuration and flow, plus the checkpoint blob when the file holds one"""
+    qual = "aspire:Aspire._build_aspire_from_file"
+    doc = "returns (instance, checkpoint bytes | None, checkpoint state | None, sampler config | None, saved sampler type | None, n_samples | None)"
+
+    def model(self, I, info, bound, args, kwargs, node):
+        p = I.path
+        a = Obj("Aspire", {"flow": Sym(z3.Const("loaded_flow", Misc), "flow")})
+        for k in ("_checkpoint_defaults", "_resume_from_default", "_resume_sampler_type", "_resume_n_samples", "_resume_overrides", "_resume_sampler_config"):
+            a.absent.add(k)
+        p.ghost["rebuilt"] = a
+        if p.choose(2, "file-holds-a-checkpoint") == 1:
+            blob = Sym(z3.Const("stored_checkpoint_bytes", Misc), "bytes")
+            state = PyDict({"sampler": Str("MiniPCNSMC")})
+            p.ghost["file_has_checkpoint"] = True
+            return Tup([a, blob, state, PyDict({"sampler_class": Str("MiniPCNSMC")}), Str("smc"), IV(z3.Int("stored_n_samples"))])
+        p.ghost["file_has_checkpoint"] = False
+        return Tup([a, NONE, NONE, NONE, NONE, NONE])
+
+
+class ResumeFromFile(Contract):
+    qual = "aspire:Aspire.resume_from_file"
+    properties = ("C12", "C14", "C11")
+    doc = ("the rebuilt instance keeps checkpointing to the file it came from (checkpoint defaults with that path, cadence 1) whether or not the file already holds a "
+           "checkpoint (a run interrupted before its first checkpoint is restarted from the same file); the stored checkpoint, sampler type and size are primed "
+           "exactly when the file holds a checkpoint")
+
+    def must_return(self, shape):
+        return True
+
+    def setup(self, I, shape):
+        path = Str("run.h5")
+        L = Fn(lambda I2, a, k, n: NONE, "user_log_likelihood")
+        P = Fn(lambda I2, a, k, n: NONE, "user_log_prior")
+        return Pre(ClassRef("Aspire"), [path], {"log_likelihood": L, "log_prior": P}, ghost={"path": path})
+
+    def post(self, I, pre, r):
+        p, g = I.path, pre.ghost
+        q = self.qual
+        a = p.ghost.get("rebuilt")
+        p.prove(z3.BoolVal(r is a and isinstance(r, Obj)), f"{q}:C12:returns the instance rebuilt from the file")
+        if not isinstance(r, Obj):
+            return
+        has = p.ghost.get("file_has_checkpoint")
+        tag = f"[file {'holds a checkpoint' if has else 'holds configuration and flow only (interrupted before the first checkpoint)'}]"
+        d = r.f.get("_checkpoint_defaults")
+        ok = isinstance(d, PyDict) and d.d.get("path") is g["path"]
+        p.prove(z3.BoolVal(ok), f"{q}:C12:C14:the instance keeps checkpointing to the file it was rebuilt from {tag}")
+        if ok:
+            p.prove(to_int(d.d["every"]) == 1 if isinstance(d.d.get("every"), Z) else z3.BoolVal(False), f"{q}:C12:default cadence of the continued run is every iteration {tag}")
+            for k in ("saved_config", "saved_flow"):
+                p.prove(z3.Not(I.truth(d.d[k])) if k in d.d else z3.BoolVal(False), f"{q}:C14:flag {k} starts cleared {tag}")
+        primed = "_resume_from_default" in r.f and not isinstance(r.f["_resume_from_default"], NoneV)
+        p.prove(z3.BoolVal(primed == bool(has)), f"{q}:C11:C12:the stored checkpoint is primed for the next sampling call exactly when the file holds one {tag}")
